@@ -11,15 +11,17 @@ import (
 
 func main() {
 	c := ev.Main(map[string]string{"C01": "exploration", "C02": "exploration", "C03": "model_checking", "C04": "fault_enumeration"})
+	// C01, C02, C04 run in one child process each (ev.Isolated): a crash of the code under test that no caller can recover
+	// from becomes a violation with the case in hand; C03 is sharded into processes anyway
 	switch c.Prop {
 	case "C01":
-		checkC01(c)
+		c.Isolated(func() { checkC01(c) })
 	case "C02":
-		checkC02(c)
+		c.Isolated(func() { checkC02(c) })
 	case "C03":
 		checkC03(c)
 	case "C04":
-		checkC04(c)
+		c.Isolated(func() { checkC04(c) })
 	}
 	os.Exit(c.Finish())
 }
